@@ -262,6 +262,9 @@ func (client *FCGIClient) writePairs(recType uint8, pairs map[string]string) err
 		if m > maxWrite {
 			// param data size exceed 65535 bytes"
 			vl := maxWrite - 8 - len(k)
+			if vl < 0 {
+				return errors.New("fcgi: param name too long")
+			}
 			v = v[:vl]
 		}
 		n := encodeSize(b, uint32(len(k)))
